@@ -113,6 +113,15 @@ class PathV:
             used(it, FSAX + 'Path.suffix is the part of the name from its last "." (empty if none)')
             idx = z3.LastIndexOf(self.s, z3.StringVal('.'))
             return SymS(z3.If(idx < 0, z3.StringVal(''), z3.SubString(self.s, idx, z3.Length(self.s) - idx)))
+        if name == 'with_suffix':
+            def with_suffix(it_, ca):
+                used(it_, FSAX + 'Path.with_suffix(s) replaces the part of the *name* from its last "." (if any) by s')
+                suf = it_.as_str(ca.args[0])
+                slash = z3.LastIndexOf(self.s, z3.StringVal('/'))
+                dot = z3.LastIndexOf(self.s, z3.StringVal('.'))
+                stem = z3.If(z3.And(dot > slash + 1), z3.SubString(self.s, 0, dot), self.s)
+                return PathV(z3.Concat(stem, suf))
+            return LibFn('Path.with_suffix', with_suffix)
         if name == 'is_file':
             return LibFn('Path.is_file', lambda it_, ca: wrap_bool(it_.st.getf(fs_of(it_), 'files').has(self.key())))
         raise Unsupported(f'Path.{name}')
